@@ -13,5 +13,5 @@ def register(obj):
 
 
 def load_all():
-    from . import exchange, trade, broker, allocation, rebalancing  # noqa
+    from . import exchange, trade, broker, allocation, rebalancing, rebalance  # noqa
     return REGISTRY
